@@ -83,7 +83,7 @@ func genPlan(t *rapid.T, tier string) any {
 	p.Verbose = rapid.IntRange(0, 4).Draw(t, "verbose") == 0
 	p.Twin = rapid.IntRange(0, 2).Draw(t, "twin") == 0
 	if rapid.IntRange(0, 2).Draw(t, "limited") == 0 {
-		p.Parallel = rapid.IntRange(1, 2).Draw(t, "parallel")
+		p.Parallel = rapid.SampledFrom([]int{1, 2, -1}).Draw(t, "parallel") // -1: a T whose Run is synchronous and Parallel a no-op
 	}
 	p.Sched = gen.Sched(t, 300)
 	return p
@@ -104,9 +104,13 @@ func scriptText(i int, s Script, interruptAt time.Duration) string {
 	var b strings.Builder
 	fmt.Fprintf(&b, "# script %d\nprobe start\n", i)
 	var elapsed time.Duration
-	for _, q := range s.Quick {
-		fmt.Fprintf(&b, "exec stub run=%dms out=quick\n", q)
-		elapsed += time.Duration(q) * time.Millisecond
+	// every duration carries its own odd nanosecond offset, so that a script which the T lets
+	// start late (after other scripts) cannot hit the interrupt or kill instant exactly: ties
+	// between a process exit and a timer are decided by the runtime, not by the seed
+	for k, q := range s.Quick {
+		d := time.Duration(q)*time.Millisecond + time.Duration(13*(k+1)+i)*time.Nanosecond
+		fmt.Fprintf(&b, "exec stub run=%dns out=quick\n", int64(d))
+		elapsed += d
 	}
 	if s.Bg {
 		b.WriteString("exec stub bg=true run=forever quit=10ms int=10ms &\n")
@@ -117,7 +121,7 @@ func scriptText(i int, s Script, interruptAt time.Duration) string {
 	}
 	switch s.Mode {
 	case "early":
-		main += fmt.Sprintf(" run=%dms", s.EarlyMs)
+		main += fmt.Sprintf(" run=%dns", int64(time.Duration(s.EarlyMs)*time.Millisecond+time.Duration(101+17*i)*time.Nanosecond))
 	case "around":
 		run := interruptAt - elapsed + time.Duration(s.RelNs)
 		if run < time.Nanosecond {
@@ -138,7 +142,7 @@ func scriptText(i int, s Script, interruptAt time.Duration) string {
 	}
 	b.WriteString(main + " out=main\n")
 	for k := 0; k < s.After; k++ {
-		fmt.Fprintf(&b, "probe after%d\nexec stub run=3ms\n", k)
+		fmt.Fprintf(&b, "probe after%d\nexec stub run=%dns\n", k, 3000000+211+19*k+i)
 	}
 	b.WriteString("probe end\n")
 	return b.String()
@@ -167,6 +171,7 @@ func execute(t *testing.T, p *Plan, files []string, deadline time.Duration, keep
 		simexec.Reset(epoch)
 		root := tskit.NewRoot(s, epoch, p.Verbose)
 		root.Limit = p.Parallel
+		root.Sequential = p.Parallel < 0
 		params := testscript.Params{
 			Files: files,
 			Cmds: map[string]func(ts *testscript.TestScript, neg bool, args []string){
@@ -337,6 +342,10 @@ func run(t *testing.T, plan any, keep bool) *simcheck.Outcome {
 			continue
 		}
 		if quitAt < 0 {
+			continue
+		}
+		if gKnown > 0 && quitAt < D-2*gKnown {
+			out.Violate("early-interrupt", "%s was interrupted at %v, but one grace period is %v (seen between an interrupt and its kill) and the deadline is %v: no interrupt is due before %v", what, quitAt, gKnown, D, D-2*gKnown)
 			continue
 		}
 		interrupted++
